@@ -1,29 +1,43 @@
 #!/usr/bin/env python3
-"""Prints the markdown table of seeded regressions kept under /verif/seeded (for DESIGN.md §11.3)."""
+"""Rewrites the table of seeded regressions in DESIGN.md (between the SEEDS markers) from
+/verif/seeded/*/meta.json."""
 import json
+import re
 from pathlib import Path
 
 V = Path(__file__).resolve().parent.parent
-print("| seed | change | needs to manifest | caught by ./check (signatures) |")
-print("|---|---|---|---|")
+rows = ["| seed | change (as described by the independent seeding agent) | reported by `./check` as | note |", "|---|---|---|---|"]
+n = caught = 0
 for d in sorted((V / "seeded").iterdir()):
     m = d / "meta.json"
     if not m.exists():
         continue
     j = json.loads(m.read_text())
-    res = j.get("check_result", [])
+    n += 1
     sigs = []
-    for v in res:
+    for v in j.get("check_result", []):
         for l in v.get("lines", []):
             l = l.strip()
-            if l.startswith("C") and ":" in l[:60]:
+            if re.match(r"C\d\d:", l):
                 s = l.split(" ")[0].rstrip(":")
                 if s not in sigs:
                     sigs.append(s)
-            if "no-failing-input-found" in l and "tie broken (no-failing-input-found)" not in sigs:
-                sigs.append("tie broken (no-failing-input-found)")
-    caught = j.get("confirmed", {}).get("caught")
-    note = j.get("lead_note", "")
-    title = j.get("title", "").replace("|", "/")[:140]
-    needs = str(j.get("needs_to_manifest", "")).replace("|", "/").replace("\n", " ")[:220]
-    print(f"| {d.name} | {title} | {needs} | {'yes: ' + ', '.join(sigs[:3]) if caught else 'NO at first' } {note} |")
+            if "no-failing-input-found" in l and "tie broken: no-failing-input-found" not in sigs:
+                sigs.append("tie broken: no-failing-input-found")
+    ok = j.get("confirmed", {}).get("caught")
+    caught += 1 if ok else 0
+    title = j.get("title", "").replace("|", "/").replace("\n", " ")
+    title = title if len(title) < 170 else title[:167] + "..."
+    note = j.get("lead_note", "").strip("()")
+    rep = ", ".join(f"`{s}`" for s in sigs[:3]) if ok else "not reported (see note)"
+    rows.append(f"| {d.name} | {title} | {rep} | {note} |")
+table = "\n".join(rows) + f"\n\n{n} seeded changes kept, {caught} reported with VIOLATION by the check of their property on the current tree.\n"
+p = V / "DESIGN.md"
+s = p.read_text()
+a, b = "<!-- SEEDS:BEGIN -->", "<!-- SEEDS:END -->"
+if a in s:
+    s = s[: s.index(a) + len(a)] + "\n" + table + s[s.index(b) :]
+    p.write_text(s)
+    print(f"table rewritten: {n} seeds, {caught} caught")
+else:
+    print(table)
